@@ -1,14 +1,18 @@
 #!/bin/sh
-# Offline setup: verify the toolchain and pre-compile the harness so that the
-# first check is fast.  Nothing is fetched.
-set -e
+# Offline setup: verify the toolchain and pre-compile the claimed checks so
+# that the first run of each is fast.  Nothing is fetched.  A package that
+# does not compile here is reported but does not fail the setup: every check
+# rebuilds from /repo's working tree anyway and reports its own state.
 export GOFLAGS=-mod=mod GOPROXY=off GOSUMDB=off GOTOOLCHAIN=local
-cd /verif/harness
-go version
+cd /verif/harness || exit 1
+go version || exit 1
 mkdir -p /verif/.run/setup /verif/evidence
-for d in checks/*/; do
-  n=$(basename "$d")
-  go test -c -vet=off -tags verif -o /verif/.run/setup/$n.test ./checks/$n >/dev/null
+for id in $(cat /verif/claimed.txt); do
+  pkg=$(python3 -c "import json;print(json.load(open('/verif/props.d/$id.json'))['pkg'])" 2>/dev/null) || continue
+  race=$(python3 -c "import json;print('-race' if json.load(open('/verif/props.d/$id.json')).get('race') else '')" 2>/dev/null)
+  if ! go test -c -vet=off -tags verif $race -o /verif/.run/setup/$pkg.test ./checks/$pkg >/verif/.run/setup/$pkg.log 2>&1; then
+    echo "setup: warning: $pkg does not build:"; tail -5 /verif/.run/setup/$pkg.log
+  fi
 done
 rm -rf /verif/.run/setup
 echo setup ok
